@@ -39,7 +39,7 @@ def django_models():
     with connection.cursor() as cur:
         cur.execute("PRAGMA case_sensitive_like=ON")
     with connection.schema_editor() as ed:
-        for m in (M.Region, M.Org, M.Owner, M.Tag, M.Item, M.Part):
+        for m in (M.Country, M.Region, M.Org, M.Owner, M.Tag, M.Item, M.Part):
             ed.create_model(m)
     _dj = M
     return M
@@ -53,15 +53,24 @@ def _date(s):
     return dt.date.fromisoformat(s) if s is not None else None
 
 
+def countries_of(inst):
+    """Instances recorded before the Country table existed have none: every region then belongs to
+    one default country."""
+    return inst.get("countries") or [{"id": 1, "name": "c1"}]
+
+
 def django_load(inst):
     """inst = {"items": [...], optional "regions","orgs","owners","tags","parts"}; ids are explicit."""
     M = django_models()
     from django.db import connection
     with connection.cursor() as cur:
         for tbl in ("djapp_part", "djapp_item_tags", "djapp_item", "djapp_tag", "djapp_owner", "djapp_org",
-                    "djapp_region"):
+                    "djapp_region", "djapp_country"):
             cur.execute("DELETE FROM " + tbl)
-    M.Region.objects.bulk_create([M.Region(id=r["id"], name=r["name"]) for r in inst.get("regions", [])])
+    countries = countries_of(inst)
+    M.Country.objects.bulk_create([M.Country(id=c["id"], name=c["name"]) for c in countries])
+    M.Region.objects.bulk_create([M.Region(id=r["id"], name=r["name"], country_id=r.get("country", countries[0]["id"]))
+                                  for r in inst.get("regions", [])])
     M.Org.objects.bulk_create([M.Org(id=o["id"], name=o["name"], size=o.get("size"), region_id=o.get("region"))
                                for o in inst.get("orgs", [])])
     M.Owner.objects.bulk_create([M.Owner(id=o["id"], name=o["name"], age=o.get("age"), rank=o.get("rank", 0),
@@ -146,9 +155,17 @@ def sqlalchemy_models():
                          sa.Column("item_id", sa.ForeignKey("item.id"), primary_key=True),
                          sa.Column("tag_id", sa.ForeignKey("tag.id"), primary_key=True))
 
+    class Country(Base):
+        __tablename__ = "country"
+        id = sa.Column(sa.Integer, primary_key=True)
+        name = sa.Column(sa.String, nullable=False)
+        regions = relationship("Region", back_populates="country")
+
     class Region(Base):
         __tablename__ = "region"
         id = sa.Column(sa.Integer, primary_key=True)
+        country_id = sa.Column(sa.ForeignKey("country.id"), nullable=False)
+        country = relationship("Country", back_populates="regions")
         name = sa.Column(sa.String)
         orgs = relationship("Org", back_populates="region")
 
@@ -230,6 +247,7 @@ def sqlalchemy_models():
     s.engine = engine
     s.Session = Session
     s.Region, s.Org, s.Owner, s.Tag, s.Item, s.Part, s.item_tags = Region, Org, Owner, Tag, Item, Part, item_tags
+    s.Country = Country
     s.conn = engine.connect()
     s.session = Session(bind=s.conn)
     _sa = s
@@ -246,10 +264,13 @@ def sqlalchemy_load(inst):
     c = S.conn
     S.session.rollback()
     S.session.expunge_all()
-    for tbl in ("part", "item_tags", "item", "tag", "owner", "org", "region"):
+    for tbl in ("part", "item_tags", "item", "tag", "owner", "org", "region", "country"):
         c.execute(sa.text("DELETE FROM " + tbl))
+    countries = countries_of(inst)
+    c.execute(S.Country.__table__.insert(), [{"id": x["id"], "name": x["name"]} for x in countries])
     if inst.get("regions"):
-        c.execute(S.Region.__table__.insert(), [{"id": r["id"], "name": r["name"]} for r in inst["regions"]])
+        c.execute(S.Region.__table__.insert(), [{"id": r["id"], "name": r["name"],
+                                                 "country_id": r.get("country", countries[0]["id"])} for r in inst["regions"]])
     if inst.get("orgs"):
         c.execute(S.Org.__table__.insert(), [{"id": o["id"], "name": o["name"], "size": o.get("size"),
                                               "region_id": o.get("region")} for o in inst["orgs"]])
